@@ -208,6 +208,46 @@ Proof.
     + apply is_empty_false.
 Qed.
 
+(* ---------------------------------------------------------------- TimePoint.remove_*_object *)
+Lemma tp_remove_ok s p o : InvW p ->
+  InvW (tp_remove s p o) /\
+  (forall x, oref s (tp_remove s p o) x = fset (oref s p) o None x) /\
+  (forall s', s' <> s -> oref s' (tp_remove s p o) = oref s' p) /\
+  qtab (tp_remove s p o) = qtab p /\
+  (oref s p o = None -> tp_remove s p o = p).
+Proof.
+  intros I. unfold tp_remove. destruct (oref s p o) as [t|] eqn:E.
+  2:{ split; [exact I|]. split; [|split; [reflexivity|split; reflexivity]].
+      intros x. unfold fset. destruct (obj_eqb o x) eqn:Ex; auto. apply obj_eqb_eq in Ex. subst. auto. }
+  set (G := fun q => set_preg s (oset_remove o (preg s q)) q).
+  set (ps1 := upd_at t G (points p)).
+  assert (P1 : PInv (qtab p) ps1).
+  { apply upd_at_PInv; [| |apply InvW_PInv; auto].
+    - intros x. apply set_preg_fields.
+    - intros x [A B]. unfold G. destruct s; simpl; split; auto; apply oset_remove_NoDup; auto. }
+  split; [|split; [|split; [|split]]].
+  - apply mk_InvW'.
+    + rewrite points_set_oref, qtab_set_oref. auto.
+    + intros s0 x t'. rewrite points_set_oref. destruct (side_eq_dec s0 s) as [->|Ns].
+      * rewrite oref_set_oref_same. unfold ps1, G. rewrite (regs_upd_at_same s t (oset_remove o)).
+        unfold fset. destruct (obj_eqb o x) eqn:Ex.
+        -- apply obj_eqb_eq in Ex. subst x. split; [discriminate|].
+           intros [q' [Hq' [Ept' Hin]]]. exfalso. destruct (t' =? t) eqn:Et.
+           ++ apply oset_remove_In in Hin as [N _]. congruence.
+           ++ assert (R : In (t', o) (regs s (points p))) by (apply regs_In; eauto).
+              apply (iw_reg p I) in R. assert (t' = t) by congruence. lia.
+        -- apply obj_eqb_neq in Ex. rewrite (iw_reg p I), regs_In.
+           split; intros [q' [Hq' [Ept' Hin]]]; exists q'; (split; [auto|split; [auto|]]).
+           ++ destruct (t' =? t); [apply oset_remove_In; split; auto; congruence | auto].
+           ++ destruct (t' =? t); [apply oset_remove_In in Hin as [_ ?]; auto | auto].
+      * rewrite oref_set_oref_other by auto. unfold ps1, G. rewrite regs_upd_at_other by auto. apply (iw_reg p I).
+    + rewrite qtab_set_oref. apply (iw_qtab p I).
+  - intros x. rewrite oref_set_oref_same. auto.
+  - intros s' Ns. apply oref_set_oref_other; auto.
+  - apply qtab_set_oref.
+  - discriminate.
+Qed.
+
 (* ---------------------------------------------------------------- set_quarter_duration *)
 Lemma setq_ok p t q : InvW p -> 0 <= t ->
   InvW (set_quarter_duration p t q) /\
@@ -244,7 +284,7 @@ Lemma step_ok p o : InvW p -> valid_op p o ->
     (forall s, 0 <= s -> qd_at (qtab p') s = spec_qd (abs p) o s) /\
     (strict_op p o -> Forall nonempty_point (points p) -> Forall nonempty_point (points p')).
 Proof.
-  intros I V. destruct o as [ob s e | ob w | t q | t]; simpl in V |- *.
+  intros I V. destruct o as [ob s e | ob w | t q | t | ob s]; simpl in V |- *.
   - (* add *)
     destruct V as [Vs Ve]. unfold add.
     assert (Ns : neg_opt s = false) by (destruct s as [t|]; simpl; auto; destruct (Vs t eq_refl); lia).
@@ -290,4 +330,15 @@ Proof.
     + intros x. pose proof (Ho SEnd) as H. simpl in H. rewrite H. auto.
     + intros s _. rewrite Hq. auto.
     + intros S F. simpl in S. rewrite Hs; auto.
+  - (* TimePoint.remove_starting_object / remove_ending_object *)
+    destruct (tp_remove_ok s p ob I) as [I1 [A1 [B1 [C1 D1]]]].
+    eexists. split; [reflexivity|]. split; auto. split; [|split; [|split]].
+    + intros x. destruct s.
+      * apply (A1 x).
+      * pose proof (B1 SStart) as H. simpl in H. rewrite H by discriminate. auto.
+    + intros x. destruct s.
+      * pose proof (B1 SEnd) as H. simpl in H. rewrite H by discriminate. auto.
+      * apply (A1 x).
+    + intros s0 _. rewrite C1. auto.
+    + intros S F. rewrite (D1 S). auto.
 Qed.
